@@ -161,7 +161,7 @@ def run(prop, repo, seed=0, verbose=False):
             st, c2, err = 2, None, str(e)
         new = [v for v in (c2.violations if c2 else []) if v["key"] not in base_keys]
         hit = [v for v in new if mu.rule is None or v["rule"] == mu.rule]
-        if st == 1 and hit:
+        if st in (1, 2) and hit:
             res["killed"] += 1
             res["detail"].append({"mutant": mu.id, "verdict": "killed", "by": sorted(set(v["rule"] for v in new)), "site": hit[0]["site"]})
             if verbose:
